@@ -36,9 +36,13 @@ class Chains(Harness):
         gmax = 3 if tier == "quick" else 4
         for g in range(1, gmax + 1):
             out.append({"genes": ["s"] * g, "circ": False})
-            out.append({"genes": ["s"] * g, "circ": True, "disjoint": tier == "quick" and g == 3})
+            # (four genes on a ring: disjoint, neighbourhood 0 - as three genes are in the quick tier)
+            out.append({"genes": ["s"] * g, "circ": True, "disjoint": (tier == "quick" and g == 3) or g == 4})
             if g <= (2 if tier == "quick" else gmax - 1):
                 out.append({"genes": ["s"] * (g - 1) + ["o"], "circ": True})
+        if tier == "quick":
+            # two chains of simple genes and a gene through the origin (the simple genes disjoint, no neighbourhood)
+            out.append({"genes": ["s", "s", "o"], "circ": True, "disjoint": True})
         return out
 
     def vars(self, var):
@@ -51,8 +55,9 @@ class Chains(Harness):
         n = v["n"]
         extra = []
         if var.get("disjoint"):
-            # quick tier only: the three genes on a ring do not overlap each other (thorough lifts this)
-            extra = [v["g%de0" % i] <= v["g%ds0" % (i + 1)] for i in range(len(var["genes"]) - 1)] + [v["nb"] == 0]
+            # the genes on a ring do not overlap each other, no neighbourhood (three genes: quick only, thorough lifts this; four: always)
+            simple = [i for i, sh in enumerate(var["genes"]) if sh == "s"]
+            extra = [v["g%de0" % i] <= v["g%ds0" % j] for i, j in zip(simple, simple[1:])] + [v["nb"] == 0]
         return L.And([shape_pre("g%d" % i, sh, v, n) for i, sh in enumerate(var["genes"])], extra,
                      gene_order_pre(var["genes"], v), 0 <= v["x"], v["x"] < n, v["cutoff"] >= 1, v["nb"] >= 0,
                      v["cutoff"] <= 3 * n, v["nb"] <= 3 * n)
@@ -128,9 +133,7 @@ class Chains(Harness):
                 cl.append(("extent_is_core_plus_neighbourhood_clipped", L.Iff(in_parts(x, ext), within)))
             else:
                 # C04 reading of "smallest span": never longer than the linear hull; the shortest covering
-                # arc whenever one shorter than half the record exists; and, when a member spans the origin
-                # (so the span must pass it anyway), the shortest arc outright
-                has_o = L.Or([incore[pi][i] for i in range(k) if var["genes"][i] == "o"])
+                # arc whenever one shorter than half the record exists
                 minimal = []
                 starts = [(incore[pi][i], part[0]) for i in range(k) for part in genes[i]]
                 ends = [(incore[pi][i], part[1]) for i in range(k) for part in genes[i]]
@@ -141,7 +144,9 @@ class Chains(Harness):
                         minimal.append(L.Implies(plain, length <= b - a))
                         wrap = L.And(ina, inb, b <= a, [L.Implies(incore[pi][i], L.Or(part[0] >= a, part[1] <= b))
                                                         for i in range(k) for part in genes[i]])
-                        minimal.append(L.Implies(L.And(wrap, L.Or(has_o, 2 * (n - a + b) < n)), length <= n - a + b))
+                        # (with three or more members the chain is connected member by member; an arc chosen early can close the
+                        # ring once a long member arrives, so beyond half the record nothing is claimed - as in C04 / C07)
+                        minimal.append(L.Implies(L.And(wrap, 2 * (n - a + b) < n), length <= n - a + b))
                 cl.append(("core_is_smallest_covering_span", L.And(minimal)))
                 within = L.Or([L.Or(L.And(s - nb <= y, y < e + nb) for y in (x, x - n, x + n)) for s, e, *_ in core])
                 cl.append(("extent_is_core_plus_neighbourhood_wrapped",
